@@ -56,7 +56,7 @@ var DefaultCmd func(c *Cluster, key, name string) (Event, error)
 // NewDriver builds a cluster with the standard templates and a driver.
 func NewDriver(opts Options, w io.Writer) *Driver {
 	c := NewCluster(opts)
-	for _, id := range []string{"A", "B", "C"} {
+	for _, id := range []string{"A", "B", "C", "D"} {
 		c.AddTemplate(id, StdTemplate(id))
 	}
 	d := &Driver{C: c, Strategy: map[string]StrategyConfig{}, Cmd: DefaultCmd}
@@ -93,7 +93,7 @@ func (d *Driver) Emit(ev Event) Event {
 // Reset starts a new trace on a fresh cluster.
 func (d *Driver) Reset(opts Options, label string) {
 	c := NewCluster(opts)
-	for _, id := range []string{"A", "B", "C"} {
+	for _, id := range []string{"A", "B", "C", "D"} {
 		c.AddTemplate(id, StdTemplate(id))
 	}
 	d.C = c
